@@ -1,7 +1,7 @@
 """Unit `global_cache`: GlobalCache<R> (cachelito-core/src/global_cache.rs) under the sequential projection
 (R1: locks erased, R2: receiver splitting) with the helper functions of utils.rs it calls."""
 from extract.rules import R, R4, R5, R1_TYPES
-from contracts.units.engine_common import (COMMON, wf_pre, get_ensures, incr_ensures, evict_requires, evict_ensures, insert_ensures, CFG_FRAME, insertm_requires, insertm_ensures, memloop_spec, insert_result_ensures)
+from contracts.units.engine_common import (COMMON, SYNC_SPEC, wf_pre, store_pre, get_ensures, incr_ensures, evict_requires, evict_ensures, insert_ensures, CFG_FRAME, insertm_requires, insertm_ensures, memloop_spec, insert_result_ensures)
 from contracts.units import utils as U
 
 G = 'cachelito-core/src/global_cache.rs'
@@ -11,36 +11,22 @@ IMPL_RULES = [R('R0.crate_path', r'\bcrate :: MemoryEstimator\b', 'MemoryEstimat
 
 UTILS_FNS = [it for it in U.UNIT['items'] if it.get('kind') == 'fn' and it.get('file') == U.U]
 
-SCORE_STUBS = dict(kind='raw', label='score_stubs', text='''
-pub open spec fn pairs_have_key(keys: Seq<(usize, &String)>, k: String) -> bool {
-    exists|j: int| 0 <= j < keys.len() && *(#[trigger] keys[j]).1 == k
-}
-// ARC / TLRU scoring helpers of utils.rs: verified in unit `scores`; here only their contract is visible.
-#[verifier::external_body]
-pub fn find_arc_eviction_key<R>(map: &HashMap<String, CacheEntry<R>>, keys: Vec<(usize, &String)>) -> (res: Option<String>)
-    ensures
-        res is Some ==> map@.contains_key(res->Some_0) && pairs_have_key(keys@, res->Some_0),
-        res is None ==> forall|k: String| #[trigger] map@.contains_key(k) ==> !pairs_have_key(keys@, k),
-        // ground instance of the clause above (front of the queue), stated so that the term is available to callers
-        res is None && keys@.len() > 0 ==> !map@.contains_key(*keys@[0].1),
-{ unimplemented!() }
+from contracts.units import scores as SC
 
-#[verifier::external_body]
-pub fn find_tlru_eviction_key<R>(map: &HashMap<String, CacheEntry<R>>, keys: Vec<(usize, &String)>, ttl: Option<u64>, frequency_weight: Option<f64>) -> (res: Option<String>)
-    ensures
-        res is Some ==> map@.contains_key(res->Some_0) && pairs_have_key(keys@, res->Some_0),
-        res is None ==> forall|k: String| #[trigger] map@.contains_key(k) ==> !pairs_have_key(keys@, k),
-        // ground instance of the clause above (front of the queue), stated so that the term is available to callers
-        res is None && keys@.len() > 0 ==> !map@.contains_key(*keys@[0].1),
-{ unimplemented!() }
-
+ENUM = dict(kind='raw', label='enum_collect', text='''
 /// R4: `o.iter().enumerate()` -> the vector of (index, &element) pairs the iterator yields
 #[verifier::external_body]
 pub fn enum_collect<'a>(o: &'a VecDeque<String>) -> (r: Vec<(usize, &'a String)>)
-    ensures r@.len() == o@.len(), forall|j: int| 0 <= j < r@.len() ==> (#[trigger] r@[j]).0 == j && *r@[j].1 == o@[j],
-        forall|k: String| #[trigger] o@.contains(k) <==> pairs_have_key(r@, k),
+    ensures r@.len() == o@.len(), r@.len() <= usize::MAX, pairs_indexed(r@), forall|j: int| #![trigger r@[j]] #![trigger o@[j]] 0 <= j < r@.len() ==> *r@[j].1 == o@[j],
 { unimplemented!() }
+
+/// String::clone yields an equal String (vstd specifies String::clone; stated for the `cloned` predicate of generic code)
+pub broadcast axiom fn ax_cloned_string(a: String, b: String)
+    ensures #[trigger] cloned(a, b) ==> a == b;
 ''')
+
+# the scoring helpers are verified in unit `scores`; the engines see only their contracts (same text, stub=True)
+SCORE_STUBS = [SC.SPEC, dict(SC.ARC_ITEM, stub=True, loops={}, hints=[]), dict(SC.TLRU_ITEM, stub=True, loops={}, hints=[]), ENUM]
 
 M = 'map'
 
@@ -53,18 +39,20 @@ def fn(name, **kw):
 
 UNIT = dict(
     name='global_cache',
-    items=COMMON + UTILS_FNS + [SCORE_STUBS,
+    prelude=['prelude.rs', 'prelude_float.rs'],
+    items=COMMON + UTILS_FNS + SCORE_STUBS + [SYNC_SPEC,
         dict(kind='struct', file=G, name='GlobalCache', rules=R1_TYPES),
         fn('get', ret='res', requires=wf_pre(M), ensures=get_ensures(M)),
         fn('increment_frequency', ensures=incr_ensures(M)),
-        fn('handle_entry_limit_eviction', split_self=True, rules=R4 + R5 + R1_TYPES,
+        fn('handle_entry_limit_eviction', split_self=True,
+           hints=[(('fn_start',), 'float_axioms', 'broadcast use fl::group_float; broadcast use b_arc_min_zero; broadcast use b_tlru_min_zero; broadcast use ax_cloned_string;')], rules=R4 + R5 + R1_TYPES,
            requires=evict_requires('map', 'o'), ensures=evict_ensures('map', 'o'),
            loops={0: dict(
                invariant_except_break=[('nothing_popped', 'map_write@ == old(map)@ && o@ == old(o)@')],
                invariant=[('wf0', 'wf(old(map)@, old(o)@) && old(o)@.len() > 0')],
                ensures=[('front_evicted', 'evicted(old(map)@, old(o)@, map_write@, o@, old(o)@[0])')],
                decreases='o@.len()')}),
-        fn('insert', rules=R4, requires=wf_pre(M), ensures=insert_ensures(M)),
+        fn('insert', rules=R4, requires=store_pre(M), ensures=insert_ensures(M)),
         fn('insert_with_memory', impl=IMPL_MEM, impl_rules=IMPL_RULES, rules=R4 + R5,
            requires=insertm_requires(M), ensures=insertm_ensures(M),
            loops={
@@ -76,9 +64,9 @@ UNIT = dict(
                    decreases='o@.len()'),
            },
            hints=[(('before_loop', 1), 'snapshot', 'let ghost m_in = map_write@; let ghost o_in = o@;')]),
-        fn('insert_result', impl=r"^impl<T: Clone \+ Debug \+ 'static, E: Clone \+ Debug \+ 'static> GlobalCache<Result<T, E>>$", requires=wf_pre(M), ensures=insert_result_ensures(M)),
+        fn('insert_result', impl=r"^impl<T: Clone \+ Debug \+ 'static, E: Clone \+ Debug \+ 'static> GlobalCache<Result<T, E>>$", requires=store_pre(M), ensures=insert_result_ensures(M)),
         fn('insert_result_with_memory', impl=r"MemoryEstimator,? > GlobalCache<Result<T, E>>$", impl_rules=IMPL_RULES,
-           requires=wf_pre(M) + [('counters_unsaturated', 'freq_ok(old(self).%s@)' % M),
+           requires=store_pre(M) + [('counters_unsaturated', 'freq_ok(old(self).%s@)' % M),
                                  ('no_usize_overflow', 'forall|v: Result<T, E>| #[trigger] v.mem() + mem_total(old(self).%s@, old(self).order@) <= usize::MAX' % M)],
            ensures=[e for e in insert_result_ensures(M) if e[0] in ('cfg_frame', 'err_changes_nothing', 'post_wf', 'survivors_unchanged')]
                    + [('ok_stored', ['C09', 'C01'], '(value is Ok && final(self).%s@.contains_key(s2s(key))) ==> final(self).%s@[s2s(key)].value is Ok && cloned(value->Ok_0, final(self).%s@[s2s(key)].value->Ok_0)' % (M, M, M))]),
